@@ -2,13 +2,24 @@
 //! proptest tier.  Coverage feedback comes from altrios-core built with sancov.
 //! Known findings are tolerated in-target (so a campaign is not stopped by one crash
 //! forever); a new failure writes a replay file and aborts, so libFuzzer keeps the input.
+//! One binary serves every property: VERIF_FUZZ_PROP selects it.
 
-use super::run::{exec_case, load_findings, VERIF_ROOT};
+use super::run::{exec_case, load_findings, tape_from_bytes, VERIF_ROOT};
 use super::*;
+use std::io::Write;
 use std::sync::{Once, OnceLock};
 
 static INIT: Once = Once::new();
 static FINDINGS: OnceLock<Vec<super::run::Finding>> = OnceLock::new();
+static PROP: OnceLock<&'static dyn Property> = OnceLock::new();
+
+pub fn one_input_env(data: &[u8]) {
+    let p = *PROP.get_or_init(|| {
+        let id = std::env::var("VERIF_FUZZ_PROP").expect("VERIF_FUZZ_PROP names the property");
+        *crate::props::registry().iter().find(|p| p.id() == id).expect("known property id")
+    });
+    one_input(p, data)
+}
 
 pub fn one_input(p: &dyn Property, data: &[u8]) {
     INIT.call_once(|| {
@@ -16,16 +27,17 @@ pub fn one_input(p: &dyn Property, data: &[u8]) {
         install_panic_hook();
     });
     let findings = FINDINGS.get_or_init(load_findings);
-    let len = p.tape_len(Tier::Quick);
-    let mut tape: Vec<u32> = data.chunks(4).map(|c| {
-        let mut b = [0u8; 4];
-        b[..c.len()].copy_from_slice(c);
-        u32::from_le_bytes(b)
-    }).collect();
-    tape.resize(len, 0);
+    let tape = tape_from_bytes(p, data);
     let mut g = Gen::new(&tape);
     let case = p.generate(&mut g, Tier::Quick);
     let cx = exec_case(p, &case);
+    // per-process statistics, appended so the stage can report what the campaign executed
+    if let Ok(dir) = std::env::var("VERIF_FUZZ_STATS") {
+        if let Ok(mut f) = std::fs::OpenOptions::new().create(true).append(true).open(std::path::Path::new(&dir).join(format!("stats-{}", std::process::id()))) {
+            let known = cx.fails.iter().filter(|f| findings.iter().any(|k| k.status == "open" && k.signature == f.signature)).count();
+            let _ = writeln!(f, "{:016x} {} {} {}", fnv64(&case), cx.nontrivial as u8, cx.discard.is_some() as u8, known);
+        }
+    }
     // interesting classes the random tier rarely reaches are kept for inspection
     for l in ["train_rerouted_off_shortest_path", "train_rewound"] {
         if cx.labels.contains(l) {
@@ -42,7 +54,7 @@ pub fn one_input(p: &dyn Property, data: &[u8]) {
             let path = dir.join(format!("fuzz-{:016x}.json", fnv64(&f.signature)));
             let body = serde_json::json!({"property": p.id(), "signature": f.signature, "detail": f.detail, "origin": "libFuzzer", "case": serde_json::from_str::<serde_json::Value>(&case).unwrap_or(serde_json::Value::Null)});
             let _ = std::fs::write(&path, serde_json::to_string(&body).unwrap());
-            eprintln!("VIOLATION property={} replay={}\n  signature: {}\n  detail: {}", p.id(), path.display(), f.signature, f.detail);
+            eprintln!("FUZZ-FAILURE property={} file={}\n  signature: {}\n  detail: {}", p.id(), path.display(), f.signature, f.detail);
             std::process::abort();
         }
     }
